@@ -12,18 +12,19 @@ import z3
 from symx.core import Engine, SR, noprint
 from symx.arr import sarr
 from symx.npproxy import NPProxy
-from symx.models import FRot, FUniverse, FMerge, rotation_matrix_terms, models_selftest, real_universe
+from symx.models import FRot, FUniverse, FMerge, FMemUniverse, rotation_matrix_terms, models_selftest, real_universe
 from symx.prove import Prover
 from symx.runner import Acc
 from harness.common import bypass_guard, bound, z, fval, isclose
 
 PROPERTY = "C10"
 FUNCTIONS = ["molgri.molecules.pts.Pseudotrajectory.__init__", "Pseudotrajectory.generate_pseudotrajectory", "Pseudotrajectory.get_full_grid",
+             "Pseudotrajectory.get_pt_as_universe", "Pseudotrajectory.get_one_molecule_pt_as_universe", "Pseudotrajectory._determine_which_molecule",
              "molgri.io.TwoMoleculeWriter._center_both_molecules"]
 STUBS = ["MDAnalysis Universe/AtomGroup/Merge -> symx.models (positions getter returns a copy, rotate = R(x-p)+p, center_of_mass = sum(m x)/sum(m); "
          "self-tested against MDAnalysis each run)", "scipy Rotation.from_quat(q).as_matrix() -> scalar-last normalising closed form (self-tested)"]
 ASSUMPTIONS = ["float modelled by the reals (MDAnalysis stores float32: rounding is outside the claim)", "masses > 0, quaternions non-zero"]
-OUTSIDE = ["get_pt_as_universe (MemoryReader plumbing) and the file writers", "more atoms / frames than the bound"]
+OUTSIDE = ["the file writers", "more atoms / frames than the bound"]
 
 
 def bounds(tier):
@@ -37,6 +38,7 @@ def shapes(tier, seed):
     out = [{"kind": "pt", "n1": a, "n2": b, "frames": f} for a in n1s for b in n2s for f in fs]
     out += [{"kind": "pt", "n1": 1, "n2": b, "frames": 2, "history": True} for b in (1, 2, 3)]
     out += [{"kind": "center", "n1": a, "n2": b} for a in n1s for b in n2s]
+    out += [{"kind": "universe", "n1": a, "n2": b, "frames": f} for a in (1, 2) for b in ((1, 2, 3) if tier == "quick" else (1, 2, 3, 4)) for f in ((1, 2, 3) if tier == "quick" else (1, 2, 3, 4, 5))]
     out.append({"kind": "rotation_lemma", "n1": 0, "n2": 0})
     out.sort(key=lambda s: (s["n1"] + s["n2"]) * s.get("frames", 1))
     return out
@@ -53,7 +55,7 @@ def _vars(n1, n2, nframes):
 
 
 def run_shape(shape):
-    return {"center": run_center, "pt": run_pt, "rotation_lemma": run_lemma}[shape["kind"]](shape)
+    return {"center": run_center, "pt": run_pt, "rotation_lemma": run_lemma, "universe": run_universe}[shape["kind"]](shape)
 
 
 def run_lemma(shape):
@@ -145,6 +147,91 @@ def run_pt(shape):
     return acc.result(eng.stats, prover.stats)
 
 
+def _universe_history(P, u1, u2, grid, shift):
+    """the trajectory-as-universe API on one Pseudotrajectory object, with a caller that edits (in place, frame by frame) the derived
+    one-molecule universes it was handed; works on the models (symbolic) and on real MDAnalysis (replay) alike"""
+    pt = P.Pseudotrajectory(u1, u2, grid)
+    U = pt.get_pt_as_universe()
+    out = {"names": list(U.atoms.names), "frames": [(ts.frame, U.atoms.positions.copy()) for ts in U.trajectory]}
+    m2 = pt.get_one_molecule_pt_as_universe(return_mol2=True)
+    out["names2"], out["frames2"] = list(m2.atoms.names), [m2.atoms.positions.copy() for ts in m2.trajectory]
+    m1 = pt.get_one_molecule_pt_as_universe(return_mol2=False)
+    out["names1"], out["frames1"] = list(m1.atoms.names), [m1.atoms.positions.copy() for ts in m1.trajectory]
+    for mu in (m2, m1):
+        for ts in mu.trajectory:
+            mu.atoms.translate(shift)
+    U2 = pt.get_pt_as_universe()
+    out["frames_again"] = [(ts.frame, U2.atoms.positions.copy()) for ts in U2.trajectory]
+    m2b = pt.get_one_molecule_pt_as_universe(return_mol2=True)
+    out["frames2_again"] = [m2b.atoms.positions.copy() for ts in m2b.trajectory]
+    return out
+
+
+def run_universe(shape):
+    """`get_pt_as_universe` / `get_one_molecule_pt_as_universe`: one frame per grid row in row order, frame k is the prescribed placement,
+    the one-molecule universes are the corresponding atom blocks, and all of it still holds after the caller edited the derived universes"""
+    import molgri.molecules.pts as P
+    n1, n2, nf = shape["n1"], shape["n2"], shape["frames"]
+    x1, x2, w1, w2, grid = _vars(n1, n2, nf)
+    eng = Engine()
+    prover = Prover(timeout_ms=60000, budget_s=600)
+    acc = Acc(shape)
+    pre = [m > 0 for m in w1 + w2] + [z3.Sum([g[c] * g[c] for c in range(3, 7)]) > 0 for g in grid]
+    for m in w1 + w2:
+        eng.declare_sign(m, "+")
+    eng.assume_global(*pre)
+    names1, names2 = [f"A{i}" for i in range(n1)], [f"B{i}" for i in range(n2)]
+
+    def body():
+        with bound(P, Rotation=FRot, Merge=FMerge, Universe=FMemUniverse, MemoryReader="MemoryReader", print=noprint, np=NPProxy()):
+            u1 = FUniverse(sarr([[SR(v) for v in r] for r in x1]), sarr([SR(m) for m in w1]), names1)
+            u2 = FUniverse(sarr([[SR(v) for v in r] for r in x2]), sarr([SR(m) for m in w2]), names2)
+            return _universe_history(P, u1, u2, sarr([[SR(v) for v in g] for g in grid]), [1, 2, 3])
+
+    Mtot = z3.Sum(w2)
+    c0 = [z3.Sum([w2[a] * x2[a][c] for a in range(n2)]) / Mtot for c in range(3)]
+
+    def expected(k, a, c):
+        if a < n1:
+            return x1[a][c]
+        Rm = rotation_matrix_terms(grid[k][3:])
+        return z3.Sum([Rm[c][d] * (x2[a - n1][d] - c0[d]) for d in range(3)]) + c0[c] + grid[k][c]
+
+    for path in eng.explore(body):
+        acc.begin(prover, path)
+        if path.kind == "exc":
+            acc.structural("no_exception", False, detail=repr(path.value) + (path.tb or "")[-600:], cex={"kind": "exception", "exc": type(path.value).__name__})
+            continue
+        if acc.reachable is not True:
+            acc.reach(prover.satisfiable(path.premises))
+        o = path.value
+        ok = (len(o["frames"]) == nf and [f[0] for f in o["frames"]] == list(range(nf)) and o["names"] == names1 + names2
+              and all(tuple(f[1].shape) == (n1 + n2, 3) for f in o["frames"]))
+        acc.structural("universe_one_frame_per_row_in_order", ok, detail=(len(o["frames"]), o["names"]))
+        ok1 = len(o["frames1"]) == nf and o["names1"] == names1 and all(tuple(f.shape) == (n1, 3) for f in o["frames1"])
+        ok2 = len(o["frames2"]) == nf and o["names2"] == names2 and all(tuple(f.shape) == (n2, 3) for f in o["frames2"])
+        acc.structural("one_molecule_universes_frames_and_atoms", ok1 and ok2, detail=(len(o["frames1"]), o["names1"], len(o["frames2"]), o["names2"]))
+        oka = len(o["frames_again"]) == nf and len(o["frames2_again"]) == nf and all(tuple(f[1].shape) == (n1 + n2, 3) for f in o["frames_again"]) \
+            and all(tuple(f.shape) == (n2, 3) for f in o["frames2_again"])
+        acc.structural("after_caller_edits_frames_and_atoms", oka, detail=(len(o["frames_again"]), len(o["frames2_again"])))
+        if not (ok and ok1 and ok2 and oka):
+            continue
+        claims = []
+        for k in range(nf):
+            for a in range(n1 + n2):
+                for c in range(3):
+                    e = expected(k, a, c)
+                    claims.append((f"universe_frame[{k},{a},{c}]", z(o["frames"][k][1][a, c]) == e))
+                    claims.append((f"universe_frame_after_caller_edited_derived_universes[{k},{a},{c}]", z(o["frames_again"][k][1][a, c]) == e))
+                    if a < n1:
+                        claims.append((f"molecule1_universe[{k},{a},{c}]", z(o["frames1"][k][a, c]) == e))
+                    else:
+                        claims.append((f"molecule2_universe[{k},{a - n1},{c}]", z(o["frames2"][k][a - n1, c]) == e))
+                        claims.append((f"molecule2_universe_again[{k},{a - n1},{c}]", z(o["frames2_again"][k][a - n1, c]) == e))
+        acc.add(prover.prove_all(path.premises, claims, max_cex=3))
+    return acc.result(eng.stats, prover.stats)
+
+
 def run_center(shape):
     import molgri.io as IO
     n1, n2 = shape["n1"], shape["n2"]
@@ -218,6 +305,30 @@ def replay(cex):
                 grid[k, 3:] = [0.1, 0.2, 0.3, 0.9]
         u1 = real_universe(x1, w1, [f"A{i}" for i in range(n1)])
         u2 = real_universe(x2, w2, [f"B{i}" for i in range(n2)])
+        if shape["kind"] == "universe":
+            try:
+                o = _universe_history(P, u1, u2, grid, [1.0, 2.0, 3.0])
+            except Exception as e:  # noqa: BLE001
+                return {"reproduced": True, "detail": f"raised {e!r}"}
+            x1f, x2f = np.asarray(x1, dtype=np.float32).astype(float), np.asarray(x2, dtype=np.float32).astype(float)
+            c0 = (np.array(w2)[:, None] * x2f).sum(axis=0) / sum(w2)
+            tol = 2e-4 * max(1.0, scale, np.abs(grid).max() if nf else 1.0)
+            bad = []
+            nm1, nm2 = [f"A{i}" for i in range(n1)], [f"B{i}" for i in range(n2)]
+            if len(o["frames"]) != nf or [f[0] for f in o["frames"]] != list(range(nf)) or o["names"] != nm1 + nm2:
+                bad.append(f"universe: {len(o['frames'])} frames for {nf} rows / names {o['names']}")
+            if len(o["frames1"]) != nf or len(o["frames2"]) != nf or o["names1"] != nm1 or o["names2"] != nm2:
+                bad.append("one-molecule universes: wrong frames / atoms")
+            if not bad:
+                for k in range(nf):
+                    Rm = np.array(rotation_matrix_terms(list(grid[k, 3:])), dtype=float)
+                    exp = np.vstack([x1f, (x2f - c0) @ Rm.T + c0 + grid[k, :3]])
+                    for tag, got in (("universe_frame", o["frames"][k][1]), ("universe_frame_after_caller_edited_derived_universes", o["frames_again"][k][1]),
+                                     ("molecule1_universe", np.vstack([o["frames1"][k], exp[n1:]])), ("molecule2_universe", np.vstack([exp[:n1], o["frames2"][k]])),
+                                     ("molecule2_universe_again", np.vstack([exp[:n1], o["frames2_again"][k]]))):
+                        if np.shape(got) != exp.shape or not np.allclose(got, exp, atol=tol):
+                            bad.append(f"{tag}[{k}]")
+            return {"reproduced": bool(bad), "detail": f"{bad[:6]}"}
         if shape.get("history"):
             first = P.Pseudotrajectory(u1, u2, grid).generate_pseudotrajectory()
             next(first)
